@@ -381,6 +381,8 @@ class Rendered(object):
         self.forbid_adj = set()   # characters that must not follow immediately (cleared by blanks too)
         self.after_word = False   # previous emission was a control word (letters)
         self.last = ''            # last emitted string
+        self.in_comment = False   # an unterminated comment line is open (no boundary is safe)
+        self.unsafe_depth = 0     # > 0 while rendering the arguments up to a verbatim argument
 
     def emit(self, s, safe=True, blank=False):
         if not s:
@@ -398,8 +400,12 @@ class Rendered(object):
         else:
             self.after_word = False      # whitespace ends a control word
         self.forbid_adj = set()
-        if safe:
+        if safe and not self.in_comment and self.unsafe_depth == 0:
             self.bounds.append(self.n)
+        if self.in_comment:
+            if not (blank and '\n' in s):
+                raise Redraw('material on an open comment line')
+            self.in_comment = False
         self.parts.append(s)
         self.n += len(s)
         self.last = s
@@ -414,7 +420,8 @@ def render(doc, vocab):
     _render_block(doc, r, vocab, top=True)
     if r.forbid:
         pass    # absent optional slot at the very end: fine
-    r.bounds.append(r.n)
+    if not r.in_comment:
+        r.bounds.append(r.n)
     return r.source(), sorted(set(r.bounds))
 
 
@@ -481,6 +488,7 @@ def _render_block(items, r, vocab, top=False, math=False):
                 r.n += len(post)
             r.last = post or it[1] or '%'
             r.after_word = False
+            r.in_comment = (post == '')
         elif k == 'S':
             if prev is not None and prev[0] == 'S':
                 raise Redraw('adjacent specials')
@@ -524,7 +532,13 @@ def _render_args(sig, args, r, vocab, math):
     if len(sig) != len(args):
         raise ValueError('signature/argument mismatch')
     pending = set()
-    for kind, a in zip(sig, args):
+    last_v = -1
+    for i, a in enumerate(args):
+        if a is not None and a[1] == 'verb':
+            last_v = i
+    if last_v >= 0:
+        r.unsafe_depth += 1
+    for ai, (kind, a) in enumerate(zip(sig, args)):
         if a is None:
             op = slot_opener(kind) or ('[' if kind == '[nospace' else None)
             if op:
@@ -532,11 +546,14 @@ def _render_args(sig, args, r, vocab, math):
             continue
         pre, what = a[0], a[1]
         r.forbid = set()        # checked explicitly below against `pending`
+        # the delimiter of a verbatim argument is whatever character comes first: nothing may be
+        # inserted between the call and that delimiter without changing what is verbatim
+        vsafe = (ai > last_v)
         for w in pre:
             if w[0] == 'W':
                 if '\n' in w[1] and w[1].count('\n') > 1:
                     raise Redraw('paragraph break before argument')
-                r.emit(w[1], blank=True)
+                r.emit(w[1], blank=True, safe=vsafe)
             else:
                 r.emit('%', blank=True)
                 r.parts.append(w[1] + w[2])
@@ -559,12 +576,12 @@ def _render_args(sig, args, r, vocab, math):
             raise Redraw('argument starts with the opener of an absent optional slot before it')
         pending = set()
         if what == 'star':
-            r.emit('*')
+            r.emit('*', safe=vsafe)
         elif what == 'mark':
-            r.emit(a[2])
+            r.emit(a[2], safe=vsafe)
         elif what == 'grp':
             o, c, b = a[2], a[3], a[4]
-            r.emit(o)
+            r.emit(o, safe=vsafe)
             start = len(r.parts)
             _render_block(b, r, vocab, math=math)
             if o != '{':
@@ -584,9 +601,9 @@ def _render_args(sig, args, r, vocab, math):
             r.after_word = False
             r.emit(c)
         elif what == 'tok':
-            r.emit(a[2])
+            r.emit(a[2], safe=vsafe)
         elif what == 'tokm':
-            r.emit('\\' + a[2])
+            r.emit('\\' + a[2], safe=vsafe)
             r.after_word = True
         elif what == 'verb':
             o, c, txt = a[2], a[3], a[4]
@@ -606,11 +623,13 @@ def _render_args(sig, args, r, vocab, math):
                     raise Redraw('unbalanced verbatim text')
             if r.after_word and not pre and o.isalpha():
                 raise Redraw('letter delimiter after control word')
-            r.emit(o)
+            r.emit(o, safe=False)
             s = txt + c
             r.parts.append(s)
             r.n += len(s)
             r.last = s
+        if ai == last_v:
+            r.unsafe_depth -= 1
     r.forbid |= pending
 
 
